@@ -227,6 +227,18 @@ func oracleC12(op string, a []string) string {
 		return "pass"
 	case "suci":
 		w, ok := unhex(a[0])
+		if ok && len(w) >= 2 && w[0]>>4&7 == 1 && w[0]&7 == 1 {
+			// SUPI format NAI (TS 24.501 9.11.3.4): the NAI octets rendered as they are, every octet two hex digits
+			want := fmt.Sprintf("nai-1-%x", w[1:])
+			t, _, err := nasConvert.SuciToStringWithError(w)
+			if err != nil || t != want {
+				return fmt.Sprintf("FAIL NAI SUCI %x rendered %q err=%v, expected %q", w, t, err, want)
+			}
+			if m := mobileIdentity(w).GetSUCI(); m != want {
+				return fmt.Sprintf("FAIL MobileIdentity5GS.GetSUCI (NAI) = %q, expected %q", m, want)
+			}
+			return "pass"
+		}
 		if !ok || len(w) < 9 || w[0]>>4 != 0 {
 			return skip
 		}
@@ -439,6 +451,18 @@ func genConv12(g *Gen, w *bufio.Writer) {
 			b := []byte{0x01, 0x02, 0xf8, 0x39, 0x21, 0x43, scheme, 7, 0x10, 0x32, byte(last)}
 			fmt.Fprintf(w, "conv suci %s\n", hexs(b))
 		}
+	}
+	// SUCI in NAI format: every last octet value, realistic NAIs ending in every printable character, lengths 1..40
+	for last := 0; last < 256; last++ {
+		fmt.Fprintf(w, "conv suci 11%s%02x\n", hexs([]byte("user17@example.")), last)
+		fmt.Fprintf(w, "conv suci 11%02x\n", last)
+	}
+	for c := 0x20; c < 0x7f; c++ {
+		fmt.Fprintf(w, "conv suci 11%s\n", hexs(append([]byte("type0.rid61.schid0.userid@5gc.mnc012.mcc345.3gppnetwork."), byte(c))))
+	}
+	for n := 1; n <= 40; n++ {
+		fmt.Fprintf(w, "conv suci 11%s\n", hexs(g.Bytes(n)))
+		fmt.Fprintf(w, "conv mi suci 11%s\n", hexs(g.Bytes(n)))
 	}
 	// PEI
 	for i := 0; i < g.N*2; i++ {
